@@ -24,4 +24,13 @@ Agree ==
   /\ andRes \in T!AllAdm(hist) /\ ofRes \in T!OfAdm(c, hist)
   /\ trues = T!Trues(hist) /\ anyF = T!AnyIs(hist, "F") /\ anyM = T!AnyIs(hist, "M")
 Inductive == IndInv
+
+(* The set-lifted connectives of the language layer (closed forms, used by the trace             *)
+(* specification on lists of any length) equal their definition by explicit product, for EVERY   *)
+(* vector of non-empty admissible sets up to length 4 and every threshold - checked once.        *)
+NonEmpty == (SUBSET T!Tri) \ {{}}
+LiftedAll == \A kk \in 0..4 : \A Ss \in [1..kk -> NonEmpty] :
+               /\ T!AndS(Ss) = T!AndSRef(Ss) /\ T!OrS(Ss) = T!OrSRef(Ss) /\ T!AllS(Ss) = T!AllSRef(Ss)
+               /\ \A nn \in 0..(kk + 1) : T!OfS(nn, Ss) = T!OfSRef(nn, Ss)
+ASSUME LiftedAll
 =============================================================================
